@@ -77,6 +77,9 @@ func runC10(cases []string, out *bufio.Writer, _ []string) {
 				for j := 1; j < c10CtxFieldCount(curCtx.Load()); j++ { // any number of context fields, beyond any inline capacity
 					fs = append(fs, log.Int(fmt.Sprintf("cx%dz", j), int64(j)))
 				}
+				if curCtx.Load()%3 == 0 { // a context field under the very key one of the call's own fields uses: both are part of the record
+					fs = append(fs, log.String("msg", fmt.Sprintf("ctxmsg%dz", curCtx.Load())))
+				}
 				return fs
 			}
 		}
@@ -194,6 +197,11 @@ func runC10(cases []string, out *bufio.Writer, _ []string) {
 							content = "0"
 						}
 						a = p
+					}
+					if (i+1)%3 == 0 {
+						if p := strings.Index(s, fmt.Sprintf("ctxmsg%dz", i+1)); p < a || p > b {
+							content = "0"
+						}
 					}
 				}
 			}
